@@ -23,7 +23,7 @@ for pid in sorted(META):
         "level_claimed": {
             "category": "exploration",
             "text": m["level_text"],
-            "design_ref": m.get("design_ref", "DESIGN.md section 5, " + pid),
+            "design_ref": m.get("design_ref", "DESIGN.md section 5 (" + pid + ") as amended by section 11"),
         },
         "level_note": m["level_note"],
         "technique": m.get("technique", "deterministic simulation with fault injection: seeded scheduler over the real code inside a testing/synctest bubble, oracle on the recorded history, seeded search over schedules and faults, shrunk replay file"),
